@@ -364,7 +364,13 @@ class Effects:
 
     @staticmethod
     def _join(roots: Set[str]) -> str:
-        roots = {r for r in roots if r}
+        flat = set()
+        for r in roots:
+            if r and r.startswith('mixed:'):
+                flat.update(r[6:].split(','))
+            elif r:
+                flat.add(r)
+        roots = flat
         if not roots:
             return 'unknown'
         if len(roots) == 1:
@@ -512,12 +518,14 @@ class Effects:
                 bind[k] = v
         return bind
 
-    def _translate(self, root: str, ci: CallInfo, callee: Func, f: Func, bind) -> str:
+    def _translate(self, root: str, ci: CallInfo, callee: Func, f: Func, bind, container: bool = False) -> str:
         if root in ('fresh',):
             return 'fresh'
         if root.startswith('mixed:'):
             parts = root[6:].split(',')
-            return self._join({self._translate(p, ci, callee, f, bind) for p in parts})
+            return self._join({self._translate(p, ci, callee, f, bind, container) for p in parts})
+        if container and root.startswith('param:') and root[6:] in bind and bind[root[6:]] is not None:
+            return self.container_root(bind[root[6:]], f)
         if root == 'self':
             if not callee.params:
                 return 'unknown'
@@ -586,7 +594,7 @@ class Effects:
                         for (fld, root) in list(star.get(callee.qual, ())):
                             if bind is None:
                                 bind = self._arg_binding(ci, callee, f)
-                            r2 = self._translate(root, ci, callee, f, bind)
+                            r2 = self._translate(root, ci, callee, f, bind, container=(fld == '<container>'))
                             if r2 == 'fresh':
                                 continue
                             k = (fld, r2)
